@@ -209,10 +209,16 @@ def roots_and_depth(ctx, rule, f, ext, seq_calls, ext_calls, kernel_names):
                         gname = U(argt[0].elts[ext.params().index(g) - 1]) if g in ext.params() and ext.params().index(g) - 1 < len(argt[0].elts) else g
                         return depth_verdict(f, argt[0].elts[idx], gname)
                     return None
-                try:
-                    cut = C.flow_of(fi).subst(cut)
-                except Exception:
-                    pass
+                aff0 = C.affine(cut)
+                t0 = {k: v for k, v in aff0.items() if k != 1}
+                if len(t0) == 1 and aff0.get(1, 0) >= 0 and next(iter(t0)) in enough and next(iter(t0.values())) >= 1:
+                    return True
+                # a name defined more than once (one definition per branch): the definition that reaches this use
+                if isinstance(cut, ast.Name) and len(C.assigns_to(fi.node, cut.id)) > 1:
+                    try:
+                        cut = C.flow_of(fi).subst(cut)
+                    except Exception:
+                        pass
                 aff = C.affine(cut)
                 terms = {k: v for k, v in aff.items() if k != 1}
                 verdict = None
@@ -596,7 +602,7 @@ def run(ctx):
         hits = pm.find_any(["M_v = max(M_d, key=lambda M_k: M_d[M_k]['latency'])",
                             "M_v = min(M_d, key=lambda M_k: M_d[M_k]['latency'])",
                             "M_v = max(M_d, key=M__)", "M_v = min(M_d, key=M__)",
-                            "M_v = sorted(M_d, key=M__)[M__]"], fr.node)
+                            "M_v = sorted(M_d, key=M__)[M__]", "M_v = sorted(M_d, key=M__, reverse=M__)[M__]"], fr.node)
         if not hits:
             # the selection used in place (e.g. `entry = d[max(d, key=...)]`): only its direction can be judged
             inplace = [n for n in ast.walk(fr.node) if isinstance(n, ast.Call) and isinstance(n.func, ast.Name)
